@@ -49,66 +49,26 @@ Proof.
   intro H. destruct sharing_witness as [N E]. exact (N (H ps0 _ _ (E ps0))).
 Qed.
 
-(* ---- names of the caller's variables enter the description of arithmetic priors ----
-   (as long as CompoundPrior declares no identifier fields: `compound_idf` is read from the source) *)
-Lemma names_refuted :
-  compound_idf = None ->
-  ~ (forall ps mid c ln rn ln' rn' l r,
-       tokens ps (reify (NBinop mid c ln rn l r)) = tokens ps (reify (NBinop mid c ln' rn' l r))).
-Proof.
-  intro Hc.
-  first [ unfold compound_idf in Hc; discriminate Hc
-        | intro H; specialize (H ps0 0%Z "SumPrior" "xx" "yy" "aa" "yy" (u01 1) (g12 2));
-          vm_compute in H; discriminate H ].
-Qed.
-
-(* ... and do not once it does *)
-Lemma names_irrelevant (fs : list string) :
-  compound_idf = Some fs ->
-  forall ps mid c ln rn ln' rn' l r,
-    tokens ps (reify (NBinop mid c ln rn l r)) = tokens ps (reify (NBinop mid c ln' rn' l r)).
-Proof. intros Hc ps mid c ln rn ln' rn' l r. cbn [reify]. rewrite Hc. reflexivity. Qed.
-
 (* ---- reload: compositions whose identifier changes, or cannot be computed, after reading back ---- *)
 Definition arith_model : node := A2 7 (NBinop 8 "SumPrior" "xx" "other" (u01 1) (NFloat 1)) (g12 2).
 Definition list_coll : node := NColl 9 2 [("0", A2 7 (u01 1) (NFloat 2)); ("1", A2 8 (u01 2) (NFloat 2))].
 Definition fixed_inside : node := NColl 9 0 [("a", A2 7 (NFloat 1) (NFloat 2)); ("b", A2 8 (u01 1) (NFloat 2))].
 Definition log_gaussian_model : node := A2 7 (NPrior 1 FLogGaussian 0 3 1 2) (NFloat 2).
 Definition negated_model : node := A2 7 (NUnop 8 "NegativePrior" "xx" (u01 1)) (NFloat 2).
+Definition negated_sum_model : node :=
+  A2 7 (NUnop 8 "NegativePrior" "xx" (NBinop 9 "SumPrior" "aa" "bb" (u01 1) (g12 2))) (NFloat 2).
 Definition drawer : node := NSearch "Drawer" ["total_draws"] [("total_draws", NInt 3)].
 
 Definition changes_on_reload (t : node) : Prop :=
   exists t', reload t = Some t' /\ forall ps, tokens ps (reify t') <> tokens ps (reify t).
 
-Lemma reload_changes_arith : compound_idf = None -> changes_on_reload arith_model.
-Proof.
-  intro Hc.
-  first [ unfold compound_idf in Hc; discriminate Hc
-        | eexists; split; [vm_compute; reflexivity | intros ps H; vm_compute in H; discriminate H] ].
-Qed.
-
-Lemma reload_changes_item_number : reload_restores_item_number = false -> changes_on_reload list_coll.
-Proof.
-  intro Hc.
-  first [ unfold reload_restores_item_number in Hc; discriminate Hc
-        | eexists; split; [vm_compute; reflexivity | intros ps H; vm_compute in H; discriminate H] ].
-Qed.
-
+(* a component without free parameters comes back as a plain object *)
 Lemma reload_changes_fixed_model : changes_on_reload fixed_inside.
 Proof. eexists. split; [vm_compute; reflexivity|]. intros ps H. vm_compute in H. discriminate H. Qed.
 
-Lemma reload_fails_log_gaussian : log_gaussian_dict = false -> reload log_gaussian_model = None.
-Proof.
-  intro Hc. first [ unfold log_gaussian_dict in Hc; discriminate Hc | vm_compute; reflexivity ].
-Qed.
-
-Lemma reload_fails_drawer : drawer_json_readable = false -> reload drawer = None.
-Proof.
-  intro Hc. first [ unfold drawer_json_readable in Hc; discriminate Hc | vm_compute; reflexivity ].
-Qed.
-
-Lemma reload_fails_negated : reload negated_model = None.
-Proof. vm_compute. reflexivity. Qed.
+(* -x / abs x never survive (bare operand: not serialisable; other operands: silently dropped) *)
+Lemma reload_fails_negated : reload negated_model = None /\ reload negated_sum_model = None.
+Proof. split; vm_compute; reflexivity. Qed.
 
 Lemma roundtrip_refuted :
   ~ (forall t, exists t', reload t = Some t' /\ forall ps, tokens ps (reify t') = tokens ps (reify t)).
@@ -117,6 +77,40 @@ Proof.
   destruct reload_changes_fixed_model as [t'' [R' N]]. rewrite R in R'. inversion R'. subst t''.
   exact (N ps0 (E ps0)).
 Qed.
+
+(* ---- fixed values no branch of the walk applies to are dropped: numpy integer / float32 / bool
+   scalars, complex numbers; constructor arguments of a plain object that are keyword-only or stored
+   under another attribute name ---- *)
+Definition np3 : obj := OOther "numpy.int64(3)" false.
+Definition np4 : obj := OOther "numpy.int64(4)" false.
+Lemma dropped_value_refuted :
+  np3 <> np4 /\ forall ps C, frame C -> tokens ps (C np3) = tokens ps (C np4).
+Proof.
+  split; [discriminate|]. intros ps C HC. destruct (frame_tokens ps C HC) as [pre [post T]].
+  rewrite !T. reflexivity.
+Qed.
+
+Definition kwonly (v : float) : node := NInst "KW" [] None [("p", NFloat v)].   (* def __init__(self, *, p) *)
+Lemma dropped_argument_refuted :
+  kwonly 1 <> kwonly 5 /\ forall ps, tokens ps (reify (kwonly 1)) = tokens ps (reify (kwonly 5)).
+Proof.
+  split; [|intro ps; reflexivity].
+  intro H. injection H as H. apply (f_equal (fun f => PrimFloat.eqb f 1)) in H. vm_compute in H. discriminate H.
+Qed.
+
+(* ---- values of different types with one token ---- *)
+Lemma type_collapse_refuted :
+  NStr "1.0" <> NFloat 1 /\ NStr "True" <> NBool true /\ NStr "3" <> NInt 3 /\
+  tokens ps0 (reify (NStr "1.0")) = tokens ps0 (reify (NFloat 1)) /\
+  (forall ps, tokens ps (reify (NStr "True")) = tokens ps (reify (NBool true))) /\
+  (forall ps, tokens ps (reify (NStr "3")) = tokens ps (reify (NInt 3))).
+Proof. repeat split; try discriminate; try (intro ps); vm_compute; reflexivity. Qed.
+
+(* ---- the order in which the items of a collection were given is visible ---- *)
+Definition coll_xy : node := NColl 9 0 [("x", A2 1 (u01 1) (NFloat 2)); ("y", A2 2 (g12 2) (NFloat 3))].
+Definition coll_yx : node := NColl 9 0 [("y", A2 2 (g12 2) (NFloat 3)); ("x", A2 1 (u01 1) (NFloat 2))].
+Lemma item_order_refuted : forall ps, tokens ps (reify coll_xy) <> tokens ps (reify coll_yx).
+Proof. intros ps H. vm_compute in H. discriminate H. Qed.
 
 (* ---- the flat description: no end markers, separator not escaped ---- *)
 Definition regroup_a : node :=
